@@ -48,6 +48,15 @@ def make(rng, typ):
         c3 = a + [GS.clause(rng, near=near, ws=False)]
         return ",".join(a), " , ".join(b), ",".join(c3)
     if typ == "Marker":
+        if rng.random() < 0.6:
+            # two layouts of one formula tree: white space, quote style, PEP 345 spellings and redundant parentheses at
+            # every level (around single comparisons, groups and the whole expression)
+            from gen import markers as GMK
+            pool = GMK.make_pool(rng)
+            tree = GMK.formula(rng, pool, p_odd=0.0)
+            a = GMK.render(tree, rng, extra_paren=0.0, max_redundant=0)
+            b = GMK.render(tree, rng, extra_paren=0.5, max_redundant=3)
+            return a, b, GMK.render(GMK.formula(rng, pool, p_odd=0.0), rng)
         m = GM.marker(rng, 2)
         return m, respell_marker(rng, m), GM.marker(rng, 2)
     if typ == "Requirement":
